@@ -120,6 +120,7 @@ func runBridge(r Round) *outcome {
 
 	srcPeer, srcConn := vkit.NewBufConnPair("10.2.0.1:1111", "10.0.0.1:8000")
 	tgtPeer, tgtConn := vkit.NewBufConnPair("10.2.0.2:2222", "10.0.0.1:8000")
+	defer func() { srcPeer.Close(); tgtPeer.Close(); srcConn.Close(); tgtConn.Close() }()
 	srcStream := stream.NewStreamProcessor(srcConn, srcConn, parent)
 	tgtStream := stream.NewStreamProcessor(tgtConn, tgtConn, parent)
 	const tid = "c16-bridge"
@@ -244,7 +245,7 @@ func runBridge(r Round) *outcome {
 	leaks2 := settle(bridgePrefixes, base, 2*time.Second)
 	mark("settle2")
 	if leaks2 != nil {
-		o.failf("C16/bridge/goroutine-leak/"+leakKeyPart(leaks2[0]), "goroutines remain 2s after Close returned and the far ends were closed: %v", leaks2)
+		o.failf("C16/bridge/goroutine-leak/"+leakKeyPart(leaks2[0]), "goroutines remain 2s after Close returned and the far ends were closed: %s", leakMsg(leaks2))
 	} else if leaks1 != nil {
 		o.failf("C16/bridge/goroutine-outlives-close-until-peer-closes/"+leakKeyPart(leaks1[0]),
 			"goroutines still running 2s after Close returned, gone only after the far ends were closed (Close must close the bridge's own conns first): %v", leaks1)
@@ -298,7 +299,7 @@ func runBridge(r Round) *outcome {
 	tgtStream.Close()
 	cancel()
 	if l := settle(bridgePrefixes, base, 2*time.Second); l != nil && leaks2 == nil {
-		o.failf("C16/bridge/goroutine-leak-after-late-operations/"+leakKeyPart(l[0]), "goroutines remain after operations on the closed bridge: %v", l)
+		o.failf("C16/bridge/goroutine-leak-after-late-operations/"+leakKeyPart(l[0]), "goroutines remain after operations on the closed bridge: %s", leakMsg(l))
 	}
 	return o
 }
